@@ -65,7 +65,9 @@ def apply_state(state):
 
 def state_main(argv):
     """--state <state> <jobs.json> <status.json>: writers on REAL paths in a process whose standard descriptors / sys.stdout
-    are in an unusual state.  jobs: [{"uri", "hist", "seed", "shapes"}...], run one after the other."""
+    are in an unusual state (or 'plain': the state is the interpreter itself, e.g. python -O, or the working directory).
+    jobs: [{"uri", "hist", "seed", "shapes", "shape_seq"?, "cwd"?, "dirs"?}...], run one after the other; history letters:
+    w write, f flush, c close, x with-exit, d chdir to the next of dirs."""
     state, jobs_path, status_path = argv
     with open(jobs_path) as f:
         jobs = json.load(f)
@@ -78,12 +80,18 @@ def state_main(argv):
         from verif import io_c17 as io17
 
         status["flow_record_file"] = flow.record.__file__
+        status["optimize"] = sys.flags.optimize
+        status["debug"] = __debug__
         for job in jobs:
             hist = job["hist"]
             nw = hist.count("w")
-            records = io17.make_records(job["seed"], nw, job["shapes"], generated=io17.fixed_generated(nw))
-            js = {"errors": [], "created": False}
+            records = io17.make_records(job["seed"], nw, job["shapes"], generated=io17.fixed_generated(nw), shape_seq=job.get("shape_seq"))
+            js = {"errors": [], "created": False, "failed_writes": []}
             status["jobs"].append(js)
+            dirs = job.get("dirs") or []
+            ndir = 0
+            if job.get("cwd"):
+                os.chdir(job["cwd"])
             try:
                 w = RecordWriter(job["uri"])
             except Exception as e:  # noqa: BLE001
@@ -97,18 +105,25 @@ def state_main(argv):
             if "x" in hist:
                 w.__enter__()
             it = iter(records)
+            wi = -1
             for pos, op in enumerate(hist):
                 try:
                     if op == "w":
+                        wi += 1
                         w.write(next(it))
+                    elif op == "d":  # the application changes its working directory
+                        ndir += 1
+                        os.chdir(dirs[ndir % len(dirs)])
                     elif op == "f":
                         w.flush()
                     elif op == "c":
                         w.close()
                     elif op == "x":
                         w.__exit__(None, None, None)
-                except Exception as e:  # noqa: BLE001
+                except Exception as e:  # noqa: BLE001 - the application catches the error and carries on
                     js["errors"].append({"at": pos, "op": op, "exception": "%s: %s" % (type(e).__name__, str(e)[:200])})
+                    if op == "w":
+                        js["failed_writes"].append(wi)
             del w
         status["done"] = True
     except Exception as e:  # noqa: BLE001
